@@ -733,6 +733,8 @@ func (x *c14Exec) exec(op string) string {
 			return "bad-args"
 		}
 		return x.execFrame(op, w[0] == "wfalloc", uint32(pv), wire.BitcoinNet(nt), b)
+	case "wconcurrent":
+		return x.parseConcurrent(op, w)
 	case "wstream":
 		if len(w) != 4 {
 			return "bad-args"
@@ -1796,7 +1798,7 @@ func runC14(c *Ctx) error {
 	c.R.Rule = "corpus first (witness of the repaired defect C14-F1: 109-byte version frame with an inflated user-agent var-int). ops: wenc/wwrite (round trip of random messages of the 16 kinds + protoconf, mostly well-formed, 1 in 5 with one WF clause spoiled, x 12 negotiated protocol versions (every threshold of protocol.go with neighbours) + 5 outside, both MessageEncoding values, 4 networks), " +
 		"wframe/wdec (mutation stream over valid frames of EVERY command of makeEmptyMessage: bit flips in header/payload, truncation, length-field and count-var-int inflation, splicing, random payloads and streams, command-field damage; checksum repaired in most cases so that the decoder is reached), " +
 		"wstream (ReadMessage repeatedly on ONE reader: 2-4 frames, a frame rejected for wrong magic / unknown or non-UTF-8 command / per-command oversize / bad checksum / undecodable payload with payload length in {0,1,10239,10240,10241,20480,30720,40960,k*10240,random}, the payload filled with embedded VALID frames, followed by valid frames, sometimes a cut or stray tail; Go oracle walks the stream by the declared lengths only: every valid frame after a rejected one is returned intact, the reader stands at the next frame boundary after every call, nothing inside a rejected payload is handed out), " +
-		"var-int lattice, directed allocation candidates, wsha. A round-trip case is non-trivial when the message has at least one field; a mutation case when the frame has a full header and differs from its valid source; distinct by op line. " +
+		"var-int lattice, directed allocation candidates, wsha; last, oracle only: payloads cut inside every fixed-width integer read (uint8, uint16 of a var-int and of a port, uint32, uint64; consistent length and checksum), then wconcurrent = 8 goroutines at once doing BsvEncode / Bsvdecode (through a writer / reader that yield while the codec holds its scratch buffer) / WriteMessage / ReadMessage round trips of their own random well-formed messages for 1 s (8 s thorough), each compared with an expectation computed single-threaded beforehand (signature c14-concurrent-roundtrip-mismatch). A round-trip case is non-trivial when the message has at least one field; a mutation case when the frame has a full header and differs from its valid source; distinct by op line. " +
 		"Oracle (Go, independent of the model): WF(m) => decode(encode(m)) renders equal to m and re-encodes to the same bytes, ReadMessage(WriteMessage(m)) = m with the frame layout recomputed by crypto/sha256; " +
 		"no panic, no hang (60 s), TotalAlloc delta of one decode <= 8 x MaxPayloadLength(command, pver) + 64 KiB for negotiated pvers; wrong magic / bad checksum / unknown command / oversize length / truncated frames are never accepted."
 	var cases []c14Case
@@ -1812,6 +1814,16 @@ func runC14(c *Ctx) error {
 		g := &c14Gen{rng: lib.Rng(c.Seed, "c14"), c: c}
 		cases = append(c14Corpus(), g.streams()...)
 		cases = append(cases, g.generate()...)
+		// oracle-only concurrent stream: the hostile corpus above (+ payloads cut inside every fixed-width integer
+		// read) is phase 1, the last op runs the concurrent round trips (c14_concurrent.go)
+		for _, op := range c14TruncationOps() {
+			cases = append(cases, c14Case{op, "directed:truncated-integer", true})
+		}
+		ms := 1000
+		if c.Thorough {
+			ms = 8000
+		}
+		cases = append(cases, c14Case{fmt.Sprintf("wconcurrent 8 %d %d", ms, c.Seed), "concurrent (oracle only)", true})
 	}
 
 	x := &c14Exec{c: c, fail: c.R.Fail, measure: true}
@@ -1851,13 +1863,29 @@ func runC14(c *Ctx) error {
 	if _, err := l.Ask(fmt.Sprintf("wcfg %d", uint32(config.ExcessiveBlockSize))); err != nil {
 		return err
 	}
-	lines := make([]string, len(cases))
-	for i, cs := range cases {
-		lines[i] = cs.op
+	// wconcurrent is oracle-only (the model has no interleavings): not sent to the model
+	var lines []string
+	for _, cs := range cases {
+		if !strings.HasPrefix(cs.op, "wconcurrent ") {
+			lines = append(lines, cs.op)
+		}
 	}
-	ans, err := l.AskBatch(lines)
+	mans, err := l.AskBatch(lines)
 	if err != nil {
 		return err
+	}
+	ans := make([]string, len(cases))
+	for i, k := 0, 0; i < len(cases); i++ {
+		if strings.HasPrefix(cases[i].op, "wconcurrent ") {
+			ans[i] = impl[i]
+			if impl[i] != "ok" {
+				ans[i] = "ok" // reported by the oracle (Failure), not as a model disagreement
+				impl[i] = "ok"
+			}
+			continue
+		}
+		ans[i] = mans[k]
+		k++
 	}
 	unmodelled := 0
 	for i, cs := range cases {
@@ -1884,7 +1912,7 @@ func runC14(c *Ctx) error {
 		}
 	}
 	c.R.Count("model answered unmodelled (oracle only)", unmodelled)
-	c.R.TracesValidated = len(cases) - unmodelled
+	c.R.TracesValidated = len(lines) - unmodelled
 	c.R.ModelOps = l.Ops
 	return nil
 }
